@@ -88,6 +88,9 @@ func vKnown(id string, c bool) {
 	}
 }
 
+// vSubFail names the failing conjunct of a combined assertion (native replay only).
+func vSubFail(id string) { vRun.failed = append(vRun.failed, id) }
+
 func vCover(id string) { vRun.covers = append(vRun.covers, id) }
 
 func vParam(name string) int {
@@ -195,7 +198,29 @@ func vMaybeHV(tag string, p *HeightView) *HeightView {
 	return nil
 }
 
+func vMaybeBlock(tag string, p Block[vhash]) Block[vhash] {
+	if vBool(tag) {
+		return p
+	}
+	return nil
+}
+
+func vMaybePre(tag string, p PreBlock[vhash]) PreBlock[vhash] {
+	if vBool(tag) {
+		return p
+	}
+	return nil
+}
+
 func vTime(ns uint64) time.Time { return time.Unix(0, int64(ns)) }
+
+// vTimeZ: the zero Time if zero, else the instant ns.
+func vTimeZ(zero bool, ns uint64) time.Time {
+	if zero {
+		return time.Time{}
+	}
+	return time.Unix(0, int64(ns))
+}
 func vZeroTime() time.Time      { return time.Time{} }
 
 // vNs: nanoseconds of an instant, all-ones for the zero Time.
